@@ -7,7 +7,7 @@
 (* definition), then one Fault(kind, at) per position.  The allowed replies of a    *)
 (* faulty run are {outcome(skew) if it needs fewer than `at` bytes, else error}.     *)
 EXTENDS Integers, Sequences, TLC, Json
-CONSTANTS Seed, Ops, SeqIds, Aligns, FaultKinds, FaultStride, OutFile
+CONSTANTS Seed, Ops, SeqIds, CmpIds, Aligns, FaultKinds, FaultStride, OutFile
 S  == INSTANCE SM2
 B  == INSTANCE Bn
 BN == INSTANCE BigNat
@@ -28,9 +28,27 @@ Xor42(op) == op \in {"ecdhkeygen", "sm9masters", "sm9mastere"}
 Skews(op) == IF op \in {"sm2enc", "sm2kx", "sm9wrap", "sm9kx"} THEN {0} ELSE {0, 1}       \* who calls MaybeReadByte first
 (* block classes relative to the operation's group order *)
 F32(a) == BN!ToFixed(a, 32)
+(* limb-structured comparison classes.  The range test k <= Top is a multi-word comparison in every implementation; a     *)
+(* block is built from the four 64-bit limbs of the bound B = Top + 1, each limb below (limb - 1), equal or above          *)
+(* (limb + 1) its counterpart - code = base-3 digits, most significant limb first, 0 below / 1 equal / 2 above; a limb    *)
+(* that cannot move (0 or 2^64 - 1) stays equal.  Whether such a block is in range is decided by its FIRST unequal limb;  *)
+(* comparators that look at the wrong limb, forget the "equal so far" state or stop early get some of the 81 wrong.        *)
+CmpName(i) == "c" \o ToString(i)
+IsCmp(c) == \E i \in 0..80 : CmpName(i) = c
+CmpCode(c) == CHOOSE i \in 0..80 : CmpName(i) = c
+CmpBlock(op, code) ==
+  LET b == F32(BN!Add(Top(op), <<1>>))
+      Limb(i) == BN!Norm(SubSeq(b, 8 * i - 7, 8 * i))
+      Dig(i) == (code \div (IF i = 1 THEN 27 ELSE IF i = 2 THEN 9 ELSE IF i = 3 THEN 3 ELSE 1)) % 3
+      Max64 == <<255, 255, 255, 255, 255, 255, 255, 255>>
+      Moved(i) == IF Dig(i) = 0 /\ Limb(i) # <<>> THEN BN!Sub(Limb(i), <<1>>)
+                  ELSE IF Dig(i) = 2 /\ Limb(i) # Max64 THEN BN!Add(Limb(i), <<1>>)
+                  ELSE Limb(i)
+  IN BN!ToFixed(Moved(1), 8) \o BN!ToFixed(Moved(2), 8) \o BN!ToFixed(Moved(3), 8) \o BN!ToFixed(Moved(4), 8)
 ClassBlock(op, c, j) ==
   LET n == Order(op)
-      raw == CASE c = "zero" -> F32(<<>>)
+      raw == CASE IsCmp(c) -> CmpBlock(op, CmpCode(c))
+               [] c = "zero" -> F32(<<>>)
                [] c = "one" -> F32(<<1>>)
                [] c = "top" -> F32(Top(op))
                [] c = "topp1" -> F32(BN!Add(Top(op), <<1>>))
@@ -79,6 +97,7 @@ SeqTable == << <<>>, <<"zero">>, <<"one">>, <<"top">>, <<"topp1">>, <<"n">>, <<"
                <<"topp1", "one">>, <<"zero", "top">>, <<"n", "max", "top">>, <<"max", "zero", "np1">>, <<"np1", "topp1", "zero">>,
                <<"rand", "zero">>, <<"max", "max", "max">> >>
 Scenarios == {[op |-> o, seq |-> SeqTable[q], align |-> a] : o \in Ops, q \in SeqIds, a \in Aligns}
+              \cup {[op |-> o, seq |-> <<CmpName(i), "one">>, align |-> a] : o \in Ops, i \in CmpIds, a \in Aligns}
 Pick(s) == phase = "idle" /\ (s.align = 0 \/ 1 \in Skews(s.op)) /\ sc' = s /\ phase' = "picked" /\ UNCHANGED <<outs, fault, hist>>
 RunStep(f, allowed) ==
   [op |-> "run", what |-> sc.op, stream |-> Hx!FromBytes(Stream(sc)), fault |-> f, allowed |-> allowed,
@@ -95,6 +114,7 @@ MaxNeed == LET m == IF Len(outs) = 1 THEN outs[1].consumed ELSE (IF outs[1].cons
 (* a failing source: byte index `at` cannot be read; each skew's outcome survives iff it needs at most `at` bytes *)
 Fault(kind, at) ==
   /\ phase = "ran" /\ phase' = "faulted" /\ UNCHANGED <<sc, outs>>
+  /\ (IF sc.seq = <<>> THEN TRUE ELSE ~IsCmp(sc.seq[1]))            \* the comparison classes are about the range test only: no fault positions
   /\ at <= MaxNeed + 1 /\ (at % FaultStride = 0 \/ at >= MaxNeed - 2 \/ at <= 2 \/ at % 32 \in {0, 1, 31})
   /\ fault' = <<kind, at>>
   /\ LET allowed == [i \in 1..Len(outs) |-> IF outs[i].ok /\ RS!Succeeds(outs[i].consumed, <<kind, at>>) THEN outs[i] ELSE [ok |-> FALSE, consumed |-> at]]
